@@ -20,7 +20,10 @@ def run(ctx, focus="C06", props=("MlsVerif.Props.C06",)):
         what_oracle="loaded group differs from the written one, crash does not return the last write, twin diverges, or a late message verdict contradicts the retention window / sender rule",
         assumptions=["the SQLite transaction is one atomic step; a crash inside a provider call is not modelled",
                      "compared state excludes repo_pending_* bookkeeping (not part of the snapshot) when comparing loaded vs written"],
-        nontrivial=lambda r, kv: r["rows"] + int(kv.get("late_deliveries", "0")))
+        nontrivial=lambda r, kv: r["rows"] + int(kv.get("late_deliveries", "0")),
+        # random histories with members on both providers: write + reload in the middle of a run (cached proposals, pending own
+        # updates present), the reloaded group compared with the written one — the history generator's own C06 oracle
+        also=[(["hist", "--histories", "30" if ctx.tier != "thorough" else "300", "--sqlite", "1", "--focus", focus], None, "hist")] if focus == "C06" else [])
 
 
 def replay(ctx, path):
